@@ -6,10 +6,28 @@ import (
 	"verifharness/sim"
 )
 
-var inflComponents = map[string]string{}
-var inflAssumptions = []string{}
+var inflComponents = map[string]string{
+	"pkg/inflector (api, rules, memoisation)": "real code from /repo's working tree",
+	"package sync inside pkg/inflector/...":   "scheduled leg: replaced by simsync (cooperative Map, OnceValue, Once, Mutex, RWMutex, WaitGroup) via build overlay; race leg: the real package sync under -race",
+	"goroutine scheduling":                    "scheduled leg: one goroutine runs at a time, the next one is drawn from the seed at every synchronisation point; race leg: the Go runtime (GOMAXPROCS=16), not controlled",
+	"regexp, strings":                         "real, unmodified",
+}
+
+var inflAssumptions = []string{
+	"simsync.Map operations are atomic steps: complete for observable behaviour because sync.Map is linearizable per operation",
+	"data races on unsynchronised memory are invisible to a cooperative scheduler; they are looked for by the -race leg, whose schedule is not controlled",
+	"the irregular/uninflected word lists of the workload are English nouns hard-coded in the harness; the oracles are agreement with a fresh sequential run and the relation f(prefix+w) = prefix+f(w)",
+	"a clean batch is evidence over the sampled histories and schedules, not a proof",
+}
 
 var props = map[string]*propDef{
+	"C20": {
+		level: "exploration", engine: "inflsim",
+		rule: "each simulation is a batch of 12 histories (2-4 client goroutines, 2-6 calls each, fresh tokens so that cache misses happen under contention) executed in one fresh worker under a seeded cooperative scheduler, compared call by call with a sequential reference run in another fresh process; every 8th batch is also run 8x with real goroutines under the race detector; distinct = distinct (client/call shape, schedule seed class) of histories; distinct_traces counts distinct schedules (goroutine id lists)",
+		sims:   map[string]int{"quick": 300, "thorough": 200000},
+		budget: map[string]time.Duration{"quick": 25 * time.Second, "thorough": 15 * time.Minute},
+		explore: func(c *sim.CheckCtx) { c.Explore("c20", sim.SimC20) },
+	},
 	"C04": {
 		level: "exploration", engine: "gensim",
 		rule:    "each simulation draws a module, generator scripts and arguments from the seed and executes the same world under asc/desc/shuffled/rotated map orders at every iteration site, permuted entrypoints, fresh and warm worker processes, plus a three-run fixed-point history; distinct = distinct (package count, shadowing kinds, All, entrypoint count, go version, generator names) among simulations in which at least one package was generated",
